@@ -56,12 +56,12 @@ let () =
   (try
     while true do
       let line = input_line stdin in
-      let toks = List.filter (fun s -> s <> "") (String.split_on_char ' ' line) in
+      let toks = List.rev (List.fold_left (fun acc s -> if s <> "" then s :: acc else acc) [] (String.split_on_char ' ' line)) in
       match toks with
       | [] -> Buffer.add_char buf '\n'
       | name :: args ->
         let f = (try Hashtbl.find tbl name with Not_found -> failwith ("unknown entry " ^ name)) in
-        let out = f (List.map z_of_string args) in
+        let out = f (List.rev (List.rev_map z_of_string args)) in    (* tail recursive: traces have 10^5 .. 10^6 numbers *)
         let first = ref true in
         List.iter (fun v ->
           if not !first then Buffer.add_char buf ' ';
